@@ -199,6 +199,20 @@ func (c *Ctx) checkForN(items []FItem, epiSrc string, epi *ref.AIns, note string
 	sc := mkCase(flat, m, cfg, src, fmt.Sprintf("%s; %d block expansions", note, passes))
 	sc.Meta = false
 	c.checkSrc("C08", sc)
+	// the same program in other surface forms: CR-LF line ends, upper-case
+	// FOR/ROF with a trailing comment after ROF, between ORG and END
+	for vi, v := range []string{
+		strings.ReplaceAll(src, "\n", "\r\n"),
+		strings.ReplaceAll(strings.ReplaceAll(src, " for ", " FOR "), "rof\n", "ROF ; end of block\n"),
+		"org 0\n" + src + "end\n",
+	} {
+		if (c.unit+vi)%3 != 0 {
+			continue // one variant per program, rotating
+		}
+		sv := mkCase(flat, m, cfg, v, fmt.Sprintf("%s; surface variant %d", note, vi))
+		sv.Meta = false
+		c.checkSrc("C08", sv)
+	}
 	usrc, _ := Render(flat, nil)
 	// drop the metadata lines of the flat rendering
 	if i := strings.Index(usrc, "n equ"); i >= 0 {
@@ -301,6 +315,10 @@ func (c *Ctx) RunC08(tier string) {
 			}
 			if depthOf[bi] > 0 {
 				alts = append(alts, counterNames[depthOf[bi]-1])
+				if old == "2" {
+					// an expression over the enclosing counter and an EQU with the same value
+					alts = append(alts, "n+"+counterNames[depthOf[bi]-1]+"-"+counterNames[depthOf[bi]-1])
+				}
 			}
 			for _, a := range alts {
 				b.Count = a
@@ -347,8 +365,20 @@ func (c *Ctx) RunC08(tier string) {
 		}
 		items := []FItem{{Block: true, Counter: "i", Count: "12", Items: []FItem{{Block: true, Counter: "j", Count: "i", Items: []FItem{{Tmpl: 3}}}}}}
 		c.checkForN(items, "", nil, "12 x i nest", 200)
+		// four and five levels (the instruction templates use the innermost and outermost counters)
+		deep := func(counts []int) []FItem {
+			names := []string{"i", "j", "k", "p", "q"}
+			cur := []FItem{{Tmpl: 1}, {Tmpl: 3}}
+			for l := len(counts) - 1; l >= 0; l-- {
+				cur = []FItem{{Block: true, Counter: names[l], Count: fmt.Sprintf("%d", counts[l]), Items: cur}}
+			}
+			return cur
+		}
+		for _, cs := range [][]int{{2, 2, 2, 2}, {1, 2, 1, 3}, {2, 1, 2, 1, 2}, {3, 0, 2, 2}} {
+			c.checkForDeep(deep(cs), fmt.Sprintf("nest %v", cs))
+		}
 	}
-	rep.Bound += "; sequences of 1..14 one-line blocks with counts 0..2; nests 6x3x1, 3x3x3, 2x2x2, 6x1x1, 1x3x3; single blocks with counts 9, 10, 11, 40, 89 and a 12 x i nest"
+	rep.Bound += "; sequences of 1..14 one-line blocks with counts 0..2; nests 6x3x1, 3x3x3, 2x2x2, 6x1x1, 1x3x3; single blocks with counts 9, 10, 11, 40, 89, a 12 x i nest, nests of depth 4 and 5; one surface variant per program (CR-LF, upper-case FOR/ROF with a comment after ROF, between ORG and END)"
 	rep.Counters["c08:structure-trees"] += int64(n) / int64(c.Sh.N)
 	rep.Sample(forSource([]FItem{{Block: true, Label: "blk", Counter: "i", Count: "n+1", Items: []FItem{{Tmpl: 2}, {Block: true, Counter: "j", Count: "i", Items: []FItem{{Tmpl: 1}}}}}}, "jmp blk\n"))
 }
@@ -360,4 +390,72 @@ func cloneItems(items []FItem) []FItem {
 		out[i].Items = cloneItems(it.Items)
 	}
 	return out
+}
+
+// checkForDeep handles nests deeper than the three counter names of the
+// generic generator: the body uses the innermost and outermost counters.
+func (c *Ctx) checkForDeep(items []FItem, note string) {
+	names := []string{"i", "j", "k", "p", "q"}
+	var src strings.Builder
+	src.WriteString("n equ 2\na jmp 1\n")
+	p := &ref.AProg{Equs: []ref.AEqu{{Name: "n", Body: []string{"2"}}}}
+	p.Ins = append(p.Ins, ref.AIns{Labels: []string{"a"}, Op: "jmp", A: operand("", "1")})
+	var rec func(its []FItem, d int, env []int)
+	rec = func(its []FItem, d int, env []int) {
+		for _, it := range its {
+			if it.Block {
+				var n int
+				fmt.Sscanf(it.Count, "%d", &n)
+				for v := 1; v <= n; v++ {
+					rec(it.Items, d+1, append(append([]int{}, env...), v))
+				}
+				continue
+			}
+			inner, outer := env[len(env)-1], env[0]
+			if it.Tmpl == 1 {
+				p.Ins = append(p.Ins, ref.AIns{Op: "mov", A: operand("", "a"), B: operand("", fmt.Sprintf("2*%d-%d", inner, outer))})
+			} else {
+				p.Ins = append(p.Ins, ref.AIns{Op: "spl", A: operand("", fmt.Sprintf("%d+%d", inner, outer)), B: operand("", fmt.Sprintf("%d", inner))})
+			}
+		}
+	}
+	var wr func(its []FItem, d int)
+	depth := 0
+	var cnt func(its []FItem) int
+	cnt = func(its []FItem) int {
+		for _, it := range its {
+			if it.Block {
+				return 1 + cnt(it.Items)
+			}
+		}
+		return 0
+	}
+	depth = cnt(items)
+	wr = func(its []FItem, d int) {
+		for _, it := range its {
+			if it.Block {
+				src.WriteString(it.Counter + " for " + it.Count + "\n")
+				wr(it.Items, d+1)
+				src.WriteString("rof\n")
+				continue
+			}
+			inner, outer := names[depth-1], names[0]
+			if it.Tmpl == 1 {
+				src.WriteString("mov a, 2*" + inner + "-" + outer + "\n")
+			} else {
+				src.WriteString("spl " + inner + "+" + outer + ", " + inner + "\n")
+			}
+		}
+	}
+	wr(items, 0)
+	rec(items, 0, nil)
+	cfg := cfgM(8000, g.ICWS94)
+	m, err := ref.Denote(p, cfg)
+	if err != nil {
+		c.Rep.Count("c08:generator-skipped")
+		return
+	}
+	sc := mkCase(p, m, cfg, src.String(), note)
+	sc.Meta = false
+	c.checkSrc("C08", sc)
 }
